@@ -12,6 +12,7 @@ import (
 	"regexp"
 	"strings"
 
+	stdjson "encoding/json"
 	"github.com/tdewolff/minify/v2"
 	mcss "github.com/tdewolff/minify/v2/css"
 	mhtml "github.com/tdewolff/minify/v2/html"
@@ -19,7 +20,6 @@ import (
 	mjson "github.com/tdewolff/minify/v2/json"
 	msvg "github.com/tdewolff/minify/v2/svg"
 	mxml "github.com/tdewolff/minify/v2/xml"
-	stdjson "encoding/json"
 	"verif/harness/core"
 )
 
@@ -33,6 +33,8 @@ type c09Lang struct {
 }
 
 func validJS(b []byte) (bool, string, bool) {
+	disagree := false
+	msg := ""
 	for _, kind := range []string{"script", "module"} {
 		v, err := jsSyntax(string(b), kind, 0, false)
 		if err != nil {
@@ -41,14 +43,17 @@ func validJS(b []byte) (bool, string, bool) {
 		if v.Acorn && v.V8 {
 			return true, "", false
 		}
-		if v.Acorn != v.V8 && kind == "module" {
-			return false, v.Msg, true // parsers disagree
+		if v.Acorn != v.V8 {
+			disagree = true // e.g. V8 rejects f(...[1],{}={}) which the grammar allows
 		}
-		if kind == "module" {
-			return false, v.Msg, false
+		if kind == "script" {
+			msg = v.Msg
 		}
 	}
-	return false, "", false
+	if disagree {
+		return false, msg, true // the two parsers disagree: no verdict
+	}
+	return false, msg, false
 }
 
 func validJSON(b []byte) (bool, string, bool) {
@@ -145,7 +150,7 @@ func validHTML(b []byte) (bool, string, bool) {
 	return true, "", false
 }
 
-var c09SVGStyleAmp = regexp.MustCompile(`(?is)<style\b[^>]*>(?:[^<]|<!\[CDATA\[.*?\]\]>)*&`)
+var c09SVGStyleAmp = regexp.MustCompile(`(?is)<style\b[^>]*>(?:[^<]|<!\[CDATA\[.*?\]\]>)*&|\bstyle\s*=\s*(?:"[^"]*&|'[^']*&)`)
 var c09TypeInnerSpace = regexp.MustCompile(`(?i)type\s*=\s*("[^"]*\S\s+\S[^"]*"|'[^']*\S\s+\S[^']*')`)
 var c09ForeignBareAttr = regexp.MustCompile(`(?i)<(math|svg)\b`)
 var c09LetIdent = regexp.MustCompile(`\blet\s*(=[^=]|[;,)\].])`)
